@@ -1529,7 +1529,19 @@ fn gen_doc(rng: &mut Rng, max_w: i32, max_h: i32, style: u32) -> DocSpec {
         }
     }
     let pages: Vec<usize> = fonts.iter().map(|f| f.0).collect();
-    let palette: Vec<(u8, u8, u8)> = match rng.below(7) {
+    let palette: Vec<(u8, u8, u8)> = match rng.below(8) {
+        7 => {
+            // a proper prefix of the DOS default palette (1..=15 colours), or the default with one more colour: "is it the
+            // default palette?" must compare the length too
+            let p: Vec<(u8, u8, u8)> = Palette::dos_default().color_iter().map(|c| c.get_rgb()).collect();
+            if rng.chance(3, 4) {
+                p[..rng.range(1, 16) as usize].to_vec()
+            } else {
+                let mut q = p;
+                q.push((rng.next() as u8, 0, 0));
+                q
+            }
+        }
         0 => Palette::dos_default().color_iter().map(|c| c.get_rgb()).collect(),
         5 => {
             // the same colour in several slots: a default palette padded with black, or one entry copied over another
@@ -1574,7 +1586,18 @@ fn gen_doc(rng: &mut Rng, max_w: i32, max_h: i32, style: u32) -> DocSpec {
             title: word(rng, 35),
             author: word(rng, 20),
             group: word(rng, 20),
-            comments: (0..rng.below(4)).map(|_| { let mut c = word(rng, 63); c.insert(0, 'c'); c }).collect(),
+            comments: {
+                // lines start with 'c' (so that they never end up empty by chance); blank lines — at the start, between other
+                // lines, at the end — are added on purpose: they are comment lines like any other and count
+                let mut cs: Vec<String> = (0..rng.below(4)).map(|_| { let mut c = word(rng, 63); c.insert(0, 'c'); c }).collect();
+                if rng.chance(1, 3) {
+                    for _ in 0..rng.range(1, 3) {
+                        let at = rng.below(cs.len() as u64 + 1) as usize;
+                        cs.insert(at, String::new());
+                    }
+                }
+                cs
+            },
             letter_spacing: rng.chance(1, 2),
             aspect_ratio: rng.chance(1, 2),
         })
